@@ -1,5 +1,6 @@
 """C02 — the definition actually read is reported (superset direction of the per-construct obligations)"""
 import contracts.nast_flow  # noqa
+import contracts.linter  # noqa
 import contracts.tables  # noqa
 import contracts.names  # noqa
 import contracts.memo  # noqa
